@@ -176,7 +176,7 @@ def run_doc(job):
                     ed = doc.getobj(cd.encrypt_objid)
                     ok = ed["O"] == sec.O and ed["U"] == sec.U
                     extra[("encdict", "string", "encrypt", cd.encrypt_objid, 0, 32, "-", 0)] = "plain" if ok else "garbage"
-                if cfg["form"] in ("xrefstm", "xrefstmw0", "hybrid"):
+                if cfg["form"] in ("xrefstm", "xrefstmw0", "xrefstm0w", "hybrid"):
                     try:
                         xd = doc.getobj(cd.xref_id).get_data()
                         ok = xd == next(x.data for x in doc.xrefs if getattr(x, "data", None) is not None)
